@@ -18,7 +18,7 @@ import (
 	"pgregory.net/rapid"
 )
 
-func TestMain(m *testing.M)   { fdkit.InstallLogger(); vkit.Main(m) }
+func TestMain(m *testing.M)   { c19.CapMemory(); fdkit.InstallLogger(); vkit.Main(m) }
 func TestReplay(t *testing.T) { verifC19Setup(); defer verifC19Teardown(); vkit.Replay(t) }
 
 // VerifC19Case: a config and successive batches sent through the same worker data.
